@@ -39,8 +39,8 @@ var (
 	allocBoundNote string
 )
 
-// allocLimit: 4 x the largest list the schema itself allows (max sizeUB x element size),
-// computed by reflection from the tree under test, but at least 32 MiB.
+// allocLimit: 2 x the largest list the schema itself allows (max sizeUB x element size),
+// computed by reflection from the tree under test, but at least 16 MiB.
 func allocLimit() uint64 {
 	allocBoundOnce.Do(func() {
 		var best uint64
@@ -76,11 +76,11 @@ func allocLimit() uint64 {
 			}
 		}
 		walk(pduType, gen.PDUTag)
-		allocBound = 4 * best
-		if allocBound < 32<<20 {
-			allocBound = 32 << 20
+		allocBound = 2 * best
+		if allocBound < 16<<20 {
+			allocBound = 16 << 20
 		}
-		allocBoundNote = fmt.Sprintf("allocation bound %d MiB = 4 x largest schema list (%s: %d bytes)", allocBound>>20, where, best)
+		allocBoundNote = fmt.Sprintf("allocation bound %d MiB = 2 x largest schema list (%s: %d bytes)", allocBound>>20, where, best)
 	})
 	return allocBound
 }
